@@ -19,6 +19,8 @@ func init() {
 type c19Input struct {
 	Rows []map[string]interface{} `json:"rows"`
 	Aggs []tAgg                   `json:"aggs"`
+	// the rows reach the aggregation as null travelers (V().outNull(<label no edge has>)): as many rows, every field missing
+	Null bool `json:"null,omitempty"`
 }
 
 func aggWorker(raw json.RawMessage) interface{} {
@@ -35,6 +37,9 @@ func aggWorker(raw json.RawMessage) interface{} {
 		return map[string]string{"error": err.Error()}
 	}
 	defer env.close()
+	if in.Null {
+		return runProduction(env.gi, []tStmt{{Op: "V"}, {Op: "outNull", Strs: []string{"nolabel"}}, {Op: "aggregate", Aggs: in.Aggs}}, 15*time.Second)
+	}
 	return runProduction(env.gi, []tStmt{{Op: "V"}, {Op: "aggregate", Aggs: in.Aggs}}, 15*time.Second)
 }
 
@@ -102,7 +107,7 @@ func randAggs(rng *rand.Rand) []tAgg {
 		case 1:
 			out = append(out, tAgg{Name: name, Kind: "histogram", Field: f, Interval: uint32([]int{1, 2, 5, 10}[rng.Intn(4)])})
 		case 2:
-			ps := [][]float64{{50}, {0, 25, 50, 75, 100}, {10, 90}, {}}[rng.Intn(4)]
+			ps := [][]float64{{50}, {0, 25, 50, 75, 100}, {10, 90}, {}, {0.5, 1, 2, 50, 99}, {1, 99.5}}[rng.Intn(6)]
 			out = append(out, tAgg{Name: name, Kind: "percentile", Field: f, Percents: ps})
 		case 3:
 			out = append(out, tAgg{Name: name, Kind: "field", Field: f})
@@ -119,7 +124,7 @@ func runC19(ctx *Ctx) error {
 	ctx.EvalMod = "Eval_C19"
 	ctx.CaseTy = "c19_case"
 	ctx.Shard = 60
-	ctx.Rule = "multisets of 0-24 rows whose fields f, g, n.k hold missing / null / booleans / numbers (negative, zero, fractions, duplicates) / numeric and other text / lists / maps; 1-4 aggregations per step drawn from term(size 0,1,2,5) / histogram(interval 1,2,5,10) / percentile / field / type / count, run through V().aggregate() on kvgraph; non-trivial = at least 3 rows and an aggregation over a field that some row has; distinct by (rows, aggregations)"
+	ctx.Rule = "multisets of 0-24 rows whose fields f, g, n.k hold missing / null / booleans / numbers (negative, zero, fractions, duplicates) / numeric and other text / lists / maps; 1-4 aggregations per step drawn from term(size 0,1,2,5) / histogram(interval 1,2,5,10) / percentile / field / type / count, run through V().aggregate() on kvgraph (one run in 15 through V().outNull(l).aggregate(): the same number of rows as null travelers, every field missing); percents below and above 1; non-trivial = at least 3 rows and an aggregation over a field that some row has; distinct by (rows, aggregations)"
 	var inputs []c19Input
 	if ctx.Replay != nil {
 		var in c19Input
@@ -134,8 +139,19 @@ func runC19(ctx *Ctx) error {
 			c19Input{Rows: []map[string]interface{}{{"f": "x"}, {"f": "x"}, {"f": "y"}, {"f": "z"}, {"f": "z"}, {"f": "z"}}, Aggs: []tAgg{{Name: "t", Kind: "term", Field: "f", Size: 1}}},
 			c19Input{Rows: []map[string]interface{}{{"f": 1.0}, {"g": 2.0}, {"f": "abc"}, {"f": 5.0}}, Aggs: []tAgg{{Name: "p", Kind: "percentile", Field: "f", Percents: []float64{0, 50, 100}}, {Name: "h", Kind: "histogram", Field: "f", Interval: 2}}},
 		)
+		// percents below and above 1 on many values; rows that arrive as null travelers
+		many := []map[string]interface{}{}
+		for k := 1; k <= 200; k++ {
+			many = append(many, map[string]interface{}{"f": float64(k)})
+		}
+		inputs = append(inputs,
+			c19Input{Rows: many, Aggs: []tAgg{{Name: "p", Kind: "percentile", Field: "f", Percents: []float64{0.5, 1, 2, 10, 50, 99, 100}}}},
+			c19Input{Rows: many[:4], Null: true, Aggs: []tAgg{{Name: "c", Kind: "count"}, {Name: "y", Kind: "type", Field: "f"}, {Name: "t", Kind: "term", Field: "f"}}},
+			c19Input{Rows: many[:1], Null: true, Aggs: []tAgg{{Name: "c", Kind: "count"}}})
 		for i := 0; i < ctx.Pick(150, 1500); i++ {
-			inputs = append(inputs, c19Input{Rows: randAggRows(ctx.Rng), Aggs: randAggs(ctx.Rng)})
+			in := c19Input{Rows: randAggRows(ctx.Rng), Aggs: randAggs(ctx.Rng)}
+			in.Null = i%15 == 7
+			inputs = append(inputs, in)
 		}
 	}
 	reqs := make([]json.RawMessage, len(inputs))
@@ -151,6 +167,9 @@ func runC19(ctx *Ctx) error {
 		}
 		rows := make([]string, len(in.Rows))
 		for k, r := range in.Rows {
+			if in.Null {
+				r = map[string]interface{}{}
+			}
 			rows[k] = jmapCoq(normArg(r).(map[string]interface{}))
 		}
 		aggs := make([]string, len(in.Aggs))
